@@ -39,7 +39,7 @@ def run(chk):
         for cfgname in c10.CONFIGS:
             rec = schedreplay.Recorder(1, 0)
             tracer = ApolloTracer()
-            kw = {"variables": c10.VARS[q["vars"]], "operation_name": q["opname"] or None, "instrumentation": MultiInstrumentation(rec.instrumentation(), tracer)}
+            kw = {"variables": c10.vars_for(q), "operation_name": q["opname"] or None, "instrumentation": MultiInstrumentation(rec.instrumentation(), tracer)}
             m = {"doc": q["doc"], "opname": q["opname"], "vars": q["vars"], "cfg": cfgname, "outcome": q["outcome"], "text": text}
             try:
                 if cfgname == "blocking-optimised":
